@@ -433,7 +433,9 @@ where
         let (gp, gr) = g.split_at_mut(dim1);
         let norm_r = r.norm();
 
-        if norm_r > T::epsilon() {
+        // (relative to the radius ∏ p_i^α_i of the cone at p: the
+        // cone, and hence its gradient map, is scale invariant)
+        if norm_r > T::epsilon() * phi.sqrt() {
             let g1 = _newton_raphson_genpowcone(norm_r, p, phi, &self.α, data.ψ);
 
             gr.scalarop_from(|r| (g1 / norm_r) * r, r);
